@@ -37,6 +37,10 @@ type Check struct {
 	WatchdogQuick, WatchdogThorough time.Duration
 	// NoAddressLimit disables RLIMIT_AS for workers (race detector builds).
 	NoAddressLimit bool
+	// Env returns extra environment for a worker (tmp is the run's scratch directory).
+	Env func(tmp string, shard int) []string
+	// WorkerProcs overrides GOMAXPROCS of the workers (0: 2 when several shards run).
+	WorkerProcs int
 }
 
 // Violation is one observed refutation.
@@ -487,8 +491,13 @@ func runParent(ck *Check, tier string, seed uint64, only string) int {
 			cmd.Stdout = sef
 			cmd.Stderr = sef
 			cmd.Env = append(os.Environ(), "GOTRACEBACK=all")
-			if os.Getenv("VERIF_WORKER_PROCS") == "" && n > 1 {
+			if ck.WorkerProcs > 0 {
+				cmd.Env = append(cmd.Env, fmt.Sprintf("GOMAXPROCS=%d", ck.WorkerProcs))
+			} else if os.Getenv("VERIF_WORKER_PROCS") == "" && n > 1 {
 				cmd.Env = append(cmd.Env, "GOMAXPROCS=2")
+			}
+			if ck.Env != nil {
+				cmd.Env = append(cmd.Env, ck.Env(tmp, k)...)
 			}
 			if err := cmd.Start(); err != nil {
 				results[k].err = "start: " + err.Error()
